@@ -437,7 +437,7 @@ def aggregate(mod, tier, seed, results, errors, known, wall):
         if key in seen:
             continue
         tag = hashlib.sha1(('%s|%s' % key).encode()).hexdigest()[:10]
-        path = os.path.join(VERIF, 'replays', '%s-%s-%s.json' % (mod.ID, v['part'], tag))
+        path = os.path.join(os.environ.get('VERIF_REPLAY_DIR') or os.path.join(VERIF, 'replays'), '%s-%s-%s.json' % (mod.ID, v['part'], tag))
         os.makedirs(os.path.dirname(path), exist_ok=True)
         with open(path, 'w') as fh:
             json.dump({'property': mod.ID, 'part': v['part'], 'clause': v['clause'],
@@ -484,6 +484,12 @@ def finish(mod, evidence, seen, errors, known, write_evidence=True):
         print('  part %-22s eval=%-8d nontrivial=%-8d discarded=%d%s' % (
             name, p['evaluations'], p['nontrivial'], sum(p['discarded'].values()),
             ' (stopped early: time budget)' if p['stopped_early'] else ''))
+    if os.environ.get('VERIF_VERBOSE'):
+        for name, p in cov['parts'].items():
+            ev = max(p['evaluations'], 1)
+            print('  labels[%s]: ' % name + ', '.join('%s=%.1f%%' % (k, 100.0 * v / ev) for k, v in p['labels'].items()))
+            if p['discarded']:
+                print('  discarded[%s]: %s' % (name, p['discarded']))
     for k in known:
         hits = cov['known_finding_hits'].get(k['clause'], 0)
         print('KNOWN-FINDING: property=%s %s [clause=%s hits=%d]' % (mod.ID, k['what'], k['clause'], hits))
